@@ -335,6 +335,46 @@ Definition own_init (ds : list dgram) : st bsh (nat * bpc) :=
   ({| b_buf := []; b_pos := 0; b_lock := None; b_out := []; b_inq := ds; b_seen := []; b_cw := false; b_werr := false |},
    [(0%nat, BIdle); (1%nat, BIdle)]).
 
+(* ---- the ticker variant that flushes only after a QUIET interval (it remembers batchPos of the previous tick and
+        skips the flush while the batch is still growing) — kept for a _refuted lemma ---- *)
+Record qst := { q_e : est; q_last : N }.
+Definition qstep (BatchBuf : N) (q : qst) (ev : uev) : qst :=
+  match ev with
+  | EvTick => let e' := if lenN (e_batch (q_e q)) =? q_last q then eflush (q_e q) else q_e q in
+              {| q_e := e'; q_last := lenN (e_batch e') |}
+  | _ => {| q_e := estep BatchBuf (q_e q) ev; q_last := q_last q |}
+  end.
+
+(* ======================================================================================== *)
+(*  the local UDP session of the listening client (internal/client/mapping/udp_adapter.go):   *)
+(*  UDPVirtualConn.lastActive and UDPMappingAdapter.cleanupStaleSessions (session TTL)         *)
+(*  SIn t: a datagram from the local application arrives at time t (readLoop refreshes the      *)
+(*  stamp); SOut t: the relay writes a tunnel->UDP datagram (Write refreshes the stamp);         *)
+(*  SCleanup t: one pass of the cleanup loop: closes the session iff t - lastActive > TTL.       *)
+(*  OutRefreshes = true is the code; false the variant whose Write leaves the stamp alone.       *)
+(* ======================================================================================== *)
+Inductive sev := SIn (t : N) | SOut (t : N) | SCleanup (t : N).
+Record sess := { ss_last : N; ss_closed : bool; ss_lost : N }.   (* ss_lost: relay writes refused by a closed session *)
+Definition sess_step (OutRefreshes : bool) (TTL : N) (s : sess) (e : sev) : sess :=
+  match e with
+  | SIn t => if ss_closed s then s else {| ss_last := t; ss_closed := false; ss_lost := ss_lost s |}
+  | SOut t => if ss_closed s then {| ss_last := ss_last s; ss_closed := true; ss_lost := ss_lost s + 1 |}
+              else if OutRefreshes then {| ss_last := t; ss_closed := false; ss_lost := ss_lost s |} else s
+  | SCleanup t => if ss_closed s then s
+                  else if TTL <? t - ss_last s then {| ss_last := ss_last s; ss_closed := true; ss_lost := ss_lost s |} else s
+  end.
+Definition sess_run (OutRefreshes : bool) (TTL : N) (s : sess) (evs : list sev) : sess :=
+  fold_left (sess_step OutRefreshes TTL) evs s.
+(* the hypothesis "traffic in EITHER direction at least every TTL": every cleanup pass happens within TTL of the most
+   recent datagram (in or out); `last` = time of the most recent datagram *)
+Fixpoint live_traffic (TTL last : N) (evs : list sev) : Prop :=
+  match evs with
+  | [] => True
+  | SIn t :: tl => live_traffic TTL t tl
+  | SOut t :: tl => live_traffic TTL t tl
+  | SCleanup t :: tl => t - last <= TTL /\ live_traffic TTL last tl
+  end.
+
 (* ======================================================================================== *)
 (*  client SOCKS5 UDP-associate tunnel endpoint: internal/client/socks5_tunnel.go udpTunnelConn *)
 (*  SendPacket = [len:2 BE][datagram] (empty datagrams included);                               *)
